@@ -119,6 +119,44 @@ benign("motion-config-validate-rejects", "motion.NewConfig's validation returns 
        ("motion/motionconfig.go", "func validateConfig(*config.ThermalMotion) error {\n\t// TODO\n", "func validateConfig(conf *config.ThermalMotion) error {\n\tif conf.TempThreshMax != 0 && conf.TempThreshMax < conf.TempThreshMin {\n\t\treturn errors.New(\"temp-thresh-max is below temp-thresh-min\")\n\t}\n", False),
        ("motion/motionconfig.go", "import (\n", "import (\n\t\"errors\"\n", False))
 
+# ---- batch 3: heavier refactors
+benign("handler-recorder-factory", "handleConn builds its three file recorders through one local closure (correct refactor)",
+       (MAIN, "\tcptvRecorder := NewCPTVFileRecorder(conf, headerInfo, headerInfo.Brand(), headerInfo.Model(), headerInfo.CameraSerial(), headerInfo.Firmware())\n",
+        "\tnewFileRecorder := func() *CPTVFileRecorder {\n\t\treturn NewCPTVFileRecorder(conf, headerInfo, headerInfo.Brand(), headerInfo.Model(), headerInfo.CameraSerial(), headerInfo.Firmware())\n\t}\n\tcptvRecorder := newFileRecorder()\n", False),
+       (MAIN, "\t\tconstantRecorder = NewCPTVFileRecorder(conf, headerInfo, headerInfo.Brand(), headerInfo.Model(), headerInfo.CameraSerial(), headerInfo.Firmware())\n", "\t\tconstantRecorder = newFileRecorder()\n", False),
+       (MAIN, "\t\tNewCPTVFileRecorder(conf, headerInfo, headerInfo.Brand(), headerInfo.Model(), headerInfo.CameraSerial(), headerInfo.Firmware()),\n\t)", "\t\tnewFileRecorder(),\n\t)", False))
+
+benign("throttle-budget-helper", "the budget test of the throttler moved into a small method (correct refactor)",
+       (TH, "\tif throttler.bucket.Available() >= throttler.minRecordingLength {\n\t\tif err := throttler.recorder.StartRecording(background, tempThresh); err != nil {", "\tif throttler.hasBudget() {\n\t\tif err := throttler.recorder.StartRecording(background, tempThresh); err != nil {", False),
+       (TH, "// realClock implements", "func (throttler *ThrottledRecorder) hasBudget() bool {\n\treturn throttler.bucket.Available() >= throttler.minRecordingLength\n}\n\n// realClock implements", False))
+
+benign("limiter-elapsed-local", "log limiter computes the elapsed time into a local first",
+       (LL, "\tif now.Sub(limiter.previousTime) < limiter.interval && s == limiter.previousEntry {", "\telapsed := now.Sub(limiter.previousTime)\n\tif elapsed < limiter.interval && s == limiter.previousEntry {", False))
+
+benign("ring-next-index-inlined", "ring Move computes the next index inline",
+       (FL, "\tfl.currentIndex = fl.nextIndexAfter(fl.currentIndex)\n", "\tfl.currentIndex = (fl.currentIndex + 1) % fl.size\n", False))
+
+benign("ring-oldest-if-else", "ring Oldest written as if/else with a local",
+       (FL, "\tif fl.oldest != NO_OLDEST_SET {\n\t\treturn fl.frames[fl.oldest]\n\t}\n\treturn fl.frames[fl.nextIndexAfter(fl.currentIndex)]", "\tidx := fl.nextIndexAfter(fl.currentIndex)\n\tif fl.oldest != NO_OLDEST_SET {\n\t\tidx = fl.oldest\n\t}\n\treturn fl.frames[idx]", False))
+
+benign("process-switch-form", "the start decision chain of process written as a switch (correct refactor)",
+       (MP, "\t\tif mp.isRecording {\n\t\t\t// increase the length of recording\n\t\t\tmp.writeUntil = min(mp.framesWritten+mp.minFrames, mp.maxFrames)\n\t\t} else if mp.triggered < mp.triggerFrames {\n\t\t\t// Only start recording after n (triggerFrames) consecutive frames with motion detected.\n\t\t} else if err := mp.canStartWriting(); err != nil {\n\t\t\tmp.log.Printf(\"Recording not started: %v\", err)\n\t\t} else if err := mp.startRecording(); err != nil {\n\t\t\tmp.log.Printf(\"Can't start recording file: %v\", err)\n\t\t} else {\n\t\t\tmp.writeUntil = mp.minFrames\n\t\t}\n",
+        "\t\tswitch {\n\t\tcase mp.isRecording:\n\t\t\t// increase the length of recording\n\t\t\tmp.writeUntil = min(mp.framesWritten+mp.minFrames, mp.maxFrames)\n\t\tcase mp.triggered < mp.triggerFrames:\n\t\t\t// Only start recording after n (triggerFrames) consecutive frames with motion detected.\n\t\tdefault:\n\t\t\tif err := mp.canStartWriting(); err != nil {\n\t\t\t\tmp.log.Printf(\"Recording not started: %v\", err)\n\t\t\t} else if err := mp.startRecording(); err != nil {\n\t\t\t\tmp.log.Printf(\"Can't start recording file: %v\", err)\n\t\t\t} else {\n\t\t\t\tmp.writeUntil = mp.minFrames\n\t\t\t}\n\t\t}\n", False))
+
+benign("process-write-helper", "writing the current frame moved into a helper method (correct refactor)",
+       (MP, "\tif mp.isRecording {\n\t\terr := mp.recorder.WriteFrame(frame)\n\t\tif err != nil {\n\t\t\tmp.log.Printf(\"Failed to write to CPTV file %v\", err)\n\t\t}\n\t\tmp.framesWritten++\n\t}\n", "\tif mp.isRecording {\n\t\tmp.writeCurrent(frame)\n\t}\n", False),
+       (MP, "func (mp *MotionProcessor) ProcessFrame(", "func (mp *MotionProcessor) writeCurrent(frame *cptvframe.Frame) {\n\tif err := mp.recorder.WriteFrame(frame); err != nil {\n\t\tmp.log.Printf(\"Failed to write to CPTV file %v\", err)\n\t}\n\tmp.framesWritten++\n}\n\nfunc (mp *MotionProcessor) ProcessFrame(", False))
+
+benign("header-device-id-unconditional-when-positive", "NewCPTVFileRecorder sets DeviceID through a local (same condition)",
+       (CF, "\tif config.DeviceID > 0 {\n\t\tcptvHeader.DeviceID = config.DeviceID\n\t}\n", "\tif id := config.DeviceID; id > 0 {\n\t\tcptvHeader.DeviceID = id\n\t}\n", False))
+
+benign("handler-marker-compared-as-bytes-string", "handleConn compares the probe without the intermediate variable",
+       (MAIN, "\t\tmessage := string(rawFrame[:5])\n\t\tif message == clearBuffer {", "\t\tif string(rawFrame[:5]) == clearBuffer {", False),
+       (MAIN, "\t\tmessage = string(rawFrame[:5])\n\t\ttotalFrames++", "\t\ttotalFrames++", False))
+
+benign("writer-frame-count-log", "thermal-writer logs every 1000th frame differently (no data-path change)",
+       (TW, "\t\t\tlog.Printf(\"%d frames for this connection\", totalFrames)", "\t\t\tlog.Printf(\"%d frames so far on this connection\", totalFrames)", False))
+
 here = os.path.dirname(os.path.abspath(__file__))
 for f in os.listdir(os.path.join(here, "benign")):
     os.unlink(os.path.join(here, "benign", f))
